@@ -5,11 +5,11 @@ from ..world import world_from
 from . import resolve_common as R
 
 CLAIM = dict(
-    text="Coq theorem on the MultiTypeMap state machine (Model/Cache.v: the dict with continuation entries keyed by caller code, self.errors, self.all; getitem = hit or __missing__ incl. the leading-code-object path and resolve()'s write loop): for every method list and every finite sequence of dictionary accesses (plain and continuation keys, any order, repeats, failing and ambiguous ones), each access returns exactly what a brand-new table returns (C04_history_free), by an invariant stating that every stored entry, remembered error and candidate set is the one a fresh resolution produces and that a stored first-rank entry comes with all its continuation entries. Tie to /repo: (a) random access histories on a real MultiTypeMap vs the extracted state machine, step by step; (b) random call histories on a long-lived @ovld function whose methods delegate with call_next, each call compared (result and sequence of bodies entered) with the same call on a freshly built function (the property oracle) and with the model's chain.",
+    text="Coq theorem on the MultiTypeMap state machine (Model/Cache.v: the dict with continuation entries keyed by caller code, self.errors, self.all; getitem = hit or __missing__ incl. the leading-code-object path and resolve()'s write loop): for every method list and every finite sequence of dictionary accesses (plain and continuation keys, any order, repeats, failing and ambiguous ones), interleaved with registrations of further handlers (distinct code objects), each access returns exactly what a brand-new table over the handlers registered so far returns (C04_history_free), by an invariant stating that every stored entry, remembered error and candidate set is the one a fresh resolution produces and that a stored first-rank entry comes with all its continuation entries. Tie to /repo: (a) random access histories on a real MultiTypeMap vs the extracted state machine, step by step; (b) random call histories on a long-lived @ovld function whose methods delegate with call_next, each call compared (result and sequence of bodies entered) with the same call on a freshly built function (the property oracle) and with the model's chain.",
     note="Trusted: as C02. The state machine treats resolve() as atomic (interruption inside it is C18/C19's subject) and models the static view of ranks; per-position TypeMap caches are not modelled separately (their content is a function of the registered types, which do not change in C04's histories).",
     technique="Coq proof (cache invariant by induction over the access sequence) + differential correspondence on histories", design="6 C04")
 
-THEOREMS = ["C04_history_free_partial", "C04_invariant_reachable"]
+THEOREMS = ["C04_history_free", "C04_access_step", "C04_history_free_partial", "C04_invariant_reachable"]
 ASSUMPTIONS = ["resolve() runs to completion (no interrupt between its writes)"]
 
 
